@@ -34,6 +34,10 @@ pub fn op_kdf(a: &[&str]) -> String {
             let sig = Signature::from(sig);
             match *ty {
                 "elgamal" => {
+                    // the published intermediate seed must lead to the same key
+                    let via_seed = ElGamalSecretKey::from_seed(&ElGamalSecretKey::seed_from_signature(&sig)).ok().map(|s| s.as_bytes().to_vec());
+                    let direct = ElGamalSecretKey::new_from_signature(&sig).ok().map(|s| s.as_bytes().to_vec());
+                    if via_seed != direct { return "variant-mismatch".into() }
                     // the key-pair route and the secret-key route must agree
                     match (ElGamalKeypair::new_from_signature(&sig), ElGamalSecretKey::new_from_signature(&sig)) {
                         (Ok(k), Ok(s)) if k.secret().as_bytes() == s.as_bytes() => format!("ok:{}", hex(&kp_bytes(&k))),
@@ -41,7 +45,12 @@ pub fn op_kdf(a: &[&str]) -> String {
                         _ => "variant-mismatch".into(),
                     }
                 }
-                "ae" => match AeKey::new_from_signature(&sig) { Ok(k) => format!("ok:{}", hex(&ae_bytes(k))), Err(_) => "err".into() },
+                "ae" => {
+                    let via_seed = AeKey::from_seed(&AeKey::seed_from_signature(&sig)).ok().map(ae_bytes);
+                    let direct = AeKey::new_from_signature(&sig).ok().map(ae_bytes);
+                    if via_seed != direct { return "variant-mismatch".into() }
+                    match AeKey::new_from_signature(&sig) { Ok(k) => format!("ok:{}", hex(&ae_bytes(k))), Err(_) => "err".into() }
+                }
                 _ => bad(),
             }
         }
@@ -63,6 +72,11 @@ pub fn op_kdf(a: &[&str]) -> String {
             match *ty {
                 "elgamal" => match ElGamalKeypair::new_from_signer(&s, &ps) {
                     Ok(k) => {
+                        // secret-key route and the published seed route agree with the key-pair route
+                        let sk = ElGamalSecretKey::new_from_signer(&s, &ps).ok().map(|x| x.as_bytes().to_vec());
+                        let via_seed = ElGamalSecretKey::seed_from_signer(&s, &ps).ok()
+                            .and_then(|sd| ElGamalSecretKey::from_seed(&sd).ok()).map(|x| x.as_bytes().to_vec());
+                        if sk.as_deref() != Some(k.secret().as_bytes().as_slice()) || via_seed != sk { return "variant-mismatch".into() }
                         // deterministic: a second call gives the same key
                         let k2 = ElGamalKeypair::new_from_signer(&s, &ps).ok();
                         if k2.map(|x| kp_bytes(&x)) != Some(kp_bytes(&k)) { return "nondeterministic".into() }
@@ -71,7 +85,12 @@ pub fn op_kdf(a: &[&str]) -> String {
                     Err(_) => "err".into(),
                 },
                 "ae" => match AeKey::new_from_signer(&s, &ps) {
-                    Ok(k) => format!("ok:{}:{}", hex(&ae_bytes(k)), hex(&s.msg.borrow())),
+                    Ok(k) => {
+                        let kb = ae_bytes(k);
+                        let via_seed = AeKey::seed_from_signer(&s, &ps).ok().and_then(|sd| AeKey::from_seed(&sd).ok()).map(ae_bytes);
+                        if via_seed.as_ref() != Some(&kb) { return "variant-mismatch".into() }
+                        format!("ok:{}:{}", hex(&kb), hex(&s.msg.borrow()))
+                    }
                     Err(_) => "err".into(),
                 },
                 _ => bad(),
